@@ -142,4 +142,31 @@ theorem side_output_options_refused :
     -- non-vacuity: the same command line without such an option is accepted
     isRefused (parseArgs (search1 gccArgs) false false false [[45, 99], [120, 46, 99]]) = false := by decide +kernel
 
+/-- clang options that name a file whose *contents* steer code generation (spelled `<option>=l.txt`) -/
+def listFileOptions : List ArgsM.Bytes :=
+  [
+   [45, 102, 115, 97, 110, 105, 116, 105, 122, 101, 45, 98, 108, 97, 99, 107, 108, 105, 115, 116, 61, 108, 46, 116, 120, 116],   -- -fsanitize-blacklist=l.txt
+   [45, 102, 115, 97, 110, 105, 116, 105, 122, 101, 45, 105, 103, 110, 111, 114, 101, 108, 105, 115, 116, 61, 108, 46, 116, 120, 116],   -- -fsanitize-ignorelist=l.txt
+   [45, 102, 115, 97, 110, 105, 116, 105, 122, 101, 45, 99, 111, 118, 101, 114, 97, 103, 101, 45, 97, 108, 108, 111, 119, 108, 105, 115, 116, 61, 108, 46, 116, 120, 116],   -- -fsanitize-coverage-allowlist=l.txt
+   [45, 102, 115, 97, 110, 105, 116, 105, 122, 101, 45, 99, 111, 118, 101, 114, 97, 103, 101, 45, 105, 103, 110, 111, 114, 101, 108, 105, 115, 116, 61, 108, 46, 116, 120, 116],   -- -fsanitize-coverage-ignorelist=l.txt
+   [45, 102, 120, 114, 97, 121, 45, 97, 108, 119, 97, 121, 115, 45, 105, 110, 115, 116, 114, 117, 109, 101, 110, 116, 61, 108, 46, 116, 120, 116],   -- -fxray-always-instrument=l.txt
+   [45, 102, 120, 114, 97, 121, 45, 110, 101, 118, 101, 114, 45, 105, 110, 115, 116, 114, 117, 109, 101, 110, 116, 61, 108, 46, 116, 120, 116],   -- -fxray-never-instrument=l.txt
+   [45, 102, 120, 114, 97, 121, 45, 97, 116, 116, 114, 45, 108, 105, 115, 116, 61, 108, 46, 116, 120, 116]]   -- -fxray-attr-list=l.txt
+
+def extraHashOf : PRes → Option (List ArgsM.Bytes)
+  | .ok p => some p.extraHash
+  | _ => none
+
+/-- `list_files_reach_the_key` (fix F-C01-l, over the **regenerated** tables): for each of these options `clang -c x.c <option>=l.txt` is
+    accepted and `l.txt` is in `extra_hash_files` — the list whose file *contents* are digested into the key (`C02`: the extra-file
+    digests are a component of the key pre-image).  On the pinned tree only `-fsanitize-blacklist` was there: an edit of an ignore list
+    given with the current spelling `-fsanitize-ignorelist=` was answered with the object built under the old list. -/
+theorem list_files_reach_the_key :
+    listFileOptions.all (fun o =>
+      extraHashOf (parseArgs (search2 gccArgs clangArgs) true false false [[45, 99], [120, 46, 99], o] (search2 gccArgs clangArgs)) == some [[108, 46, 116, 120, 116]]) = true ∧
+    -- gcc: the spec file of `-specs=l.txt` (fix F-C01-m)
+    extraHashOf (parseArgs (search1 gccArgs) false false false [[45, 99], [120, 46, 99], [45, 115, 112, 101, 99, 115, 61, 108, 46, 116, 120, 116]]) = some [[108, 46, 116, 120, 116]] ∧
+    -- non-vacuity: without such an option the list is empty
+    extraHashOf (parseArgs (search2 gccArgs clangArgs) true false false [[45, 99], [120, 46, 99]] (search2 gccArgs clangArgs)) = some [] := by decide +kernel
+
 end C01
